@@ -320,17 +320,18 @@ CLAIMED = {
          "removals, replaces, helping and resizes). Tie: the real src/rculfhash.c (+ urcu.c memb, workqueue.c, the three mm plug-ins) under the shim; 2-4 workers + resizer + lazy-resize worker; random / PCT / one-preemption sweep over 22 directed scripts (seed-independent); every next word, ht->size access, memory order and API result replayed by Driver/LfhtConc.lean on the model; partitioned resize (helper threads) in the thorough tier; oracles lin (Wing-Gong linearizability search against a "
          "reference multimap on small histories), resident, replabsent. C05_full_holds additionally gives resident_found_traversal "
          "(first/next traversals across calls through the saved iterator; position invariant NotYet). Linearizability "
-         "(Props/C05Lin.lean): lfht_linearizable_partial - every completed add / add_unique / add_replace / replace / del / lookup call, "
-         "incl. lookup 'not found', has a linearisation point between its call and its return at which the multiset-per-key "
-         "specification (Lfht/Conc/LinSpec.lean) takes exactly its effect and returns exactly its result; the abstract table changes "
-         "only at those points and no point serves two calls. Partial: the composition into ONE sequential history for a whole "
-         "execution (LfhtLinearizable) is stated, not proved (the del winner is decided after its linearisation point); 'not found' "
-         "needs the key managed by unique adds only or by plain adds only; whole histories are checked by the Wing-Gong oracle on "
-         "explored schedules.",
+         "(Props/C05Lin.lean): lfht_linearizable - for every execution there is a sequential history of the multiset-per-key "
+         "specification (Lfht/Conc/LinSpec.lean), built without prophecy from per-call linearisation points, that is legal, ends in the "
+         "abstract table of the final state, contains every completed add / add_unique / add_replace / replace / del / lookup call "
+         "exactly once, with the result it returned, at a position inside its call-return interval (so real-time order is respected); "
+         "lfht_linearizable_partial gives the points (insertion CAS, REMOVED fetch-or, replace CAS, the deciding load, incl. lookup "
+         "'not found'). Hypothesis: per (key, hash) unique adds only or plain adds only (mixed use is genuinely not linearizable for "
+         "'not found'). Partial: entries for calls still pending at the end are legal but not attributed to a call; "
+         "next_duplicate / first / next are covered by resident_found_traversal and C06, not by the linearizability theorem.",
     note="Trusted: Lean kernel; SC = x86-TSO for this structure (every shared mutation of a next word is a locked RMW; private "
          "initialisation folded into the publishing CAS); abstract GpSpec grace periods; node identifiers never reused in the model; "
          "L1 ⊑ L2 on explored schedules only; split counters / resize_target arbitration belong to C09.",
-    technique="Lean 4 layered inductive invariants (resize skeleton, life cycle and flags, owner automaton, ghost list, frozen edges; one lemma per label) + event-level trace refinement of the real source with linearizability and residency oracles",
+    technique="Lean 4 layered inductive invariants (resize skeleton, life cycle and flags, owner automaton, ghost list, frozen edges, memory safety, scan coverage; one lemma per label) + linearizability proof by per-call linearisation points and a blockwise history construction + event-level trace refinement of the real source with linearizability and residency oracles",
     design_ref="§4 C05", engine="lfhtc"),
  "C06": dict(
     text="Lean 4 theorem C06_full_holds on the concurrent hash-table model of C05: replace_atomic (one step; old visible before, new "
